@@ -9,6 +9,13 @@ for d in sorted(glob.glob(os.path.join(V, "seeded", "*"))):
     dq = (m.get("detection") or {})
     q = dq.get("quick")
     t = dq.get("thorough")
+    for k, v in dq.items():
+        if " via " in k and v.get("detected"):
+            # detected by the check of another property
+            v = dict(v)
+            v["violations"] = [x + " (check %s)" % k.split(" via ")[1] for x in v["violations"]]
+            if not (q and q.get("detected")):
+                q = v
     def fmt(x):
         if not x:
             return "not run"
